@@ -372,7 +372,13 @@ def run_scenario(task):
                 res['tv_skipped'] += 1
                 return
             numeric_uf = any(k in str(d.name()) for d in _decls(ctx) for k in ('fn_', 'inv'))
-            r = ctx.check(exact=True, timeout_ms=5000)
+            # the concrete run uses floats: sample the path away from its boundaries (every comparison holds with a margin);
+            # paths that force an exact equality between symbolic terms cannot be validated in floating point
+            margin = _margins(ctx.pc)
+            if margin is None:
+                res['tv_skipped'] += 1
+                return
+            r = ctx.check(*margin, exact=True, timeout_ms=5000)
             if r != z3.sat:
                 res['tv_skipped'] += 1
                 return
@@ -482,6 +488,45 @@ def run_scenario(task):
     res['wall'] = round(time.time() - t0, 2)
     res['solver_time'] = round(res['solver_time'], 2)
     return res
+
+
+def _margins(pc, eps=None):
+    """for translation validation: strengthen each arithmetic branch literal by a margin; None if the path is a boundary"""
+    import z3
+    eps = z3.Q(1, 1000) if eps is None else eps
+    out = []
+
+    def arith(t):
+        return z3.is_app(t) and t.num_args() == 2 and (z3.is_arith(t.arg(0)) and z3.is_arith(t.arg(1)))
+    for lit in pc:
+        neg = False
+        t = lit
+        while z3.is_not(t):
+            neg = not neg
+            t = t.arg(0)
+        if not arith(t):
+            continue
+        a, b = t.arg(0), t.arg(1)
+        if a.sort() != b.sort():
+            continue
+        if z3.is_int(a):
+            continue
+        k = t.decl().kind()
+        if k == z3.Z3_OP_EQ:
+            if not neg:
+                if not (z3.is_const(a) and (z3.is_rational_value(b))) and not z3.is_rational_value(a):
+                    return None
+                continue
+            out.append(z3.Or(a >= b + eps, a <= b - eps))
+        elif k == z3.Z3_OP_LE:
+            out.append(a >= b + eps if neg else a <= b - eps)
+        elif k == z3.Z3_OP_LT:
+            out.append(a >= b + eps if neg else a <= b - eps)
+        elif k == z3.Z3_OP_GE:
+            out.append(a <= b - eps if neg else a >= b + eps)
+        elif k == z3.Z3_OP_GT:
+            out.append(a <= b - eps if neg else a >= b + eps)
+    return out
 
 
 def _save_replay(pid, sname, label, rec, k):
